@@ -264,18 +264,30 @@ func ToInteger(p Primary) Primary {
 		if math.IsNaN(val.Raw()) || math.IsInf(val.Raw(), 0) {
 			return NewNull()
 		}
-		return NewInteger(int64(val.Raw()))
+		return NewInteger(floatToInt64(val.Raw()))
 	case *String:
 		s := option.TrimSpace(val.Raw())
 		if i, e := strconv.ParseInt(s, 10, 64); e == nil {
 			return NewInteger(i)
 		}
-		if f, e := strconv.ParseFloat(s, 64); e == nil {
-			return NewInteger(int64(f))
+		if f, e := strconv.ParseFloat(s, 64); e == nil && !math.IsNaN(f) && !math.IsInf(f, 0) {
+			return NewInteger(floatToInt64(f))
 		}
 	}
 
 	return NewNull()
+}
+
+// floatToInt64 truncates; a float beyond the range of int64 becomes the nearest bound (the conversion of such a
+// value is not defined by the Go language and gave the smallest integer for large positive floats).
+func floatToInt64(f float64) int64 {
+	if 9223372036854775807 <= f {
+		return math.MaxInt64
+	}
+	if f <= -9223372036854775808 {
+		return math.MinInt64
+	}
+	return int64(f)
 }
 
 func ToIntegerStrictly(p Primary) Primary {
